@@ -562,6 +562,24 @@ def _before_return(P):
         P.prove_clause('ens:%s:2' % kind, clauses[1], env2, lambda a_, b_: glue + rng(a_) + [sub('c02:%s:extreme' % kind, a_, b_)])
         P.prove_clause('ens:%s:3' % kind, clauses[2], env2, lambda a_, b_: glue + rng(a_) + [sub('c02:%s:first' % kind, a_, b_)])
         P.prove_clause('ens:%s:4' % kind, clauses[3], env2, lambda a_: glue + [sub('c02:%s:consecutive' % kind, a_)])
+        # completeness: a half-wave inside the boundary has its extremum in the boundary-filtered block, and the block minus
+        # at most one trimmed element at the prescribed end is what is returned
+        FX = 'FP' if kind == 'peak' else 'FT'
+        kX = kP if kind == 'peak' else kT
+        maskX = 'maskP' if kind == 'peak' else 'maskT'
+        first_i, last_i = z3.IntVal(0), nres - 1
+        P.prove_clause('ens:%s:complete' % kind, _complete_clause(0 if kind == 'peak' else 1, kind, first), env2,
+                       lambda q_: glue + [TS, TE, EN, FK, CN,
+                                          z3.substitute(P.inst('c02:%s:which' % kind, i), (i, first_i)),
+                                          z3.substitute(P.inst('c02:%s:which' % kind, i), (i, last_i)),
+                                          P.inst(FX + ':lin', shift), P.inst(FX + ':lin', nres - 1 + shift),
+                                          P.inst(FX + ':cag', shift), P.inst(FX + ':cag', nres - 1 + shift),
+                                          P.inst(win, q_), P.inst(S12, q_), P.inst(later, q_), P.inst(maskX, q_),
+                                          P.inst(FX + ':out', q_), P.inst(pre1 + ':cag', q_), P.inst(pre2 + ':cag', off + q_),
+                                          # (a crossing that has a later crossing of the other kind is one of the counted ones)
+                                          P.inst(pre2 + ':lt', t2 - 1, g1(t1 - 1) + 1), P.inst(pre2 + ':cle', g1(t1 - 1) + 1),
+                                          P.inst(pre1 + ':cag', t1 - 1), P.inst(pre2 + ':cag', t2 - 1),
+                                          (AR if kind == 'peak' else AD)['inc'](q_, t1 - 1)])
 
 
 # ---------------------------------------------------------------------------------------------------------------------
@@ -604,6 +622,23 @@ def _c02_clauses(k, kind):
     ]
 
 
+def _complete_clause(k, kind, first):
+    """C02, 'one extremum for every half-wave ... nothing skipped': a half-wave of this kind whose sample window lies inside
+    the boundary (opening crossing more than `boundary` samples in, closing crossing at most len - boundary) is among the
+    reported ones - except the single one the first_extrema rule may remove at the front (when the other kind has to come
+    first) or at the back (equal counts)"""
+    A, B = (RS, DS) if kind == 'peak' else (DS, RS)
+    res = "result[%d]" % k
+    half = lambda pos: "(count_before(%s, %s + pad_amount() + 1) - 1)" % (A, pos)
+    q0, qL = half(res + "[0]"), half(res + "[len(%s) - 1]" % res)
+    front = 1 if (first is not None and first != kind) else 0          # the leading extremum of this kind may be dropped
+    back = 1 if first == kind else 0                                   # the trailing one may be dropped
+    close = "count_before(%s, %s[q] + 1)" % (B, A)
+    return ("forall(q, 0 <= q and q < len({A}) and {close} < len({B}) and {A}[q] - pad_amount() > boundary and "
+            "{B}[{close}] - pad_amount() <= len(sig) - boundary, {q0} - {front} <= q and q <= {qL} + {back})"
+            ).format(A=A, B=B, close=close, q0=q0, qL=qL, front=front, back=back)
+
+
 C02 = _c02_clauses(0, 'peak') + _c02_clauses(1, 'trough')
 
 
@@ -631,7 +666,7 @@ def _cases():
         using = dict(using)
         k0 = len(shape)
         for n_, nm in enumerate(['ens:peak:1', 'ens:peak:2', 'ens:peak:3', 'ens:peak:4', 'ens:trough:1', 'ens:trough:2',
-                                 'ens:trough:3', 'ens:trough:4']):
+                                 'ens:trough:3', 'ens:trough:4', 'ens:peak:complete', 'ens:trough:complete']):
             using[k0 + 1 + n_] = [nm]
         out.append(dict(
             label='first=%s,fk=%s' % (first, fl),
@@ -645,7 +680,7 @@ def _cases():
                    ('before_assign', 'peaks'): _before_peaks, ('after_assign', 'troughs'): _after_troughs2,
                    ('after_assign', 'peaks'): _after_store('peak'),
                    ('before_return',): _before_return},
-            ensures=shape + C02,
+            ensures=shape + C02 + [_complete_clause(0, 'peak', first), _complete_clause(1, 'trough', first)],
             ensures_using=using,
             loops={
                 1: dict(index='p', mutates=['peaks'], using=['window-extreme:peak', 'window-first:peak'], invariant=[
